@@ -75,7 +75,9 @@ Definition data_byte (tracts : list tract) (c : chunk) (p : N) : N :=
                then (let t := nth (e_tr e) tracts {| t_len := 0; t_a := 0; t_b := 0 |} in pat (t_a t) (t_b t) (p - e_off e))
                else acc) c 0.
 
-Definition positions (off len : N) : list N := map (fun k => off + N.of_nat k) (seq 0 (N.to_nat len)).
+Fixpoint positions_from (k : nat) (p : N) : list N :=
+  match k with O => [] | S k' => p :: positions_from k' (p + 1) end.
+Definition positions (off len : N) : list N := positions_from (N.to_nat len) off.
 
 Definition data_window (tracts : list tract) (c : chunk) (off len : N) : vec :=
   map (data_byte tracts c) (positions off len).
